@@ -10,6 +10,7 @@ import (
 	"go/types"
 	"sort"
 	"strings"
+	"sync"
 
 	"golang.org/x/tools/go/ssa"
 
@@ -26,6 +27,8 @@ type Prog struct {
 	goRoots     map[*ssa.Function][]*ssa.Go
 	valueRef    map[*ssa.Function]bool
 	Unresolved  []string // dynamic calls inside the repository that resolve to nothing known
+	extCache    map[*ssa.Function][]*ssa.Function
+	extSet      map[*ssa.Function]map[*ssa.Function]bool
 }
 
 // Site is one call/defer/go instruction that may invoke a function.
@@ -57,7 +60,23 @@ func New(p *load.Program) *Prog {
 		}
 	}
 	pr.buildCallers()
+	if len(p.Funcs) > 0 {
+		progRegistry.Store(p.Funcs[0].Prog, pr)
+	}
 	return pr
+}
+
+var progRegistry sync.Map // *ssa.Program → *Prog
+
+// ProgOf returns the indexed program a function belongs to (nil if unknown).
+func ProgOf(f *ssa.Function) *Prog {
+	if f == nil {
+		return nil
+	}
+	if v, ok := progRegistry.Load(f.Prog); ok {
+		return v.(*Prog)
+	}
+	return nil
 }
 
 // FieldVar returns the struct field object addressed by fa.
@@ -211,7 +230,7 @@ func (p *Prog) FuncValues(v ssa.Value) ([]*ssa.Function, bool) {
 				out = append(out, x)
 			}
 		case *ssa.MakeClosure:
-			f := x.Fn.(*ssa.Function)
+			f := unwrapBound(x.Fn.(*ssa.Function))
 			if !seen[f] {
 				seen[f] = true
 				out = append(out, f)
@@ -223,6 +242,24 @@ func (p *Prog) FuncValues(v ssa.Value) ([]*ssa.Function, bool) {
 		}
 	}
 	return out, complete
+}
+
+// unwrapBound maps the synthetic wrapper of a bound method value (x.m used as
+// a function value) to the method itself.
+func unwrapBound(f *ssa.Function) *ssa.Function {
+	if f.Synthetic == "" || !strings.HasSuffix(f.Name(), "$bound") {
+		return f
+	}
+	for _, b := range f.Blocks {
+		for _, ins := range b.Instrs {
+			if call, ok := ins.(*ssa.Call); ok {
+				if g := call.Call.StaticCallee(); g != nil {
+					return g
+				}
+			}
+		}
+	}
+	return f
 }
 
 func (p *Prog) buildCallers() {
@@ -1536,6 +1573,13 @@ func (p *Prog) private(f *ssa.Function) bool {
 // all of whose call sites are inside the set, and closures lexically nested in
 // a member of the set.
 func (p *Prog) Ext(f *ssa.Function) []*ssa.Function {
+	if out, ok := p.extCache[f]; ok {
+		return out
+	}
+	if p.extCache == nil {
+		p.extCache = map[*ssa.Function][]*ssa.Function{}
+		p.extSet = map[*ssa.Function]map[*ssa.Function]bool{}
+	}
 	in := map[*ssa.Function]bool{f: true}
 	changed := true
 	for changed {
@@ -1575,17 +1619,62 @@ func (p *Prog) Ext(f *ssa.Function) []*ssa.Function {
 			out = append(out, g)
 		}
 	}
+	p.extCache[f] = out
+	p.extSet[f] = in
 	return out
 }
 
 // InExt reports whether g belongs to Ext(f).
 func (p *Prog) InExt(f, g *ssa.Function) bool {
-	for _, x := range p.Ext(f) {
-		if x == g {
-			return true
+	if f == nil || g == nil {
+		return false
+	}
+	p.Ext(f)
+	return p.extSet[f][g]
+}
+
+// RegionRoot returns the function with the smallest extended body (itself plus
+// private helpers) that contains all the given functions, or nil when there is
+// none or the choice is ambiguous. It makes "the function that does A and B"
+// independent of how A and B are split over private helpers.
+func (p *Prog) RegionRoot(fs ...*ssa.Function) *ssa.Function {
+	var best *ssa.Function
+	bestN, tie := 0, false
+	for _, cand := range p.Funcs {
+		all := true
+		for _, f := range fs {
+			if f == nil || !p.InExt(cand, f) {
+				all = false
+				break
+			}
+		}
+		if !all {
+			continue
+		}
+		n := len(p.Ext(cand))
+		switch {
+		case best == nil || n < bestN:
+			best, bestN, tie = cand, n, false
+		case n == bestN:
+			// equal regions: prefer the outer of two mutually containing functions
+			if p.InExt(cand, best) && !p.InExt(best, cand) {
+				best = cand
+			} else if !(p.InExt(best, cand)) {
+				tie = true
+			}
 		}
 	}
-	return false
+	if tie {
+		return nil
+	}
+	return best
+}
+
+// ExtCalls calls fn for every call instruction of f and of its private helpers.
+func (p *Prog) ExtCalls(f *ssa.Function, fn func(ssa.CallInstruction)) {
+	for _, g := range p.Ext(f) {
+		Calls(g, fn)
+	}
 }
 
 // ExtInstrs calls fn for every instruction of f and of its private helpers.
@@ -1740,4 +1829,121 @@ func (p *Prog) LiftGoal(goal func(ssa.Instruction) bool, depth int) func(ssa.Ins
 		}
 		return p.MustPass(gs[0], goal, depth+1)
 	}
+}
+
+// Canon normalises v (NormCell) and, when it is a parameter of a private
+// function with exactly one resolved call site, continues with the argument
+// passed there: a value keeps its identity when code is moved into or out of a
+// single-use helper.
+func (p *Prog) Canon(v ssa.Value) ssa.Value {
+	for depth := 0; depth < 6; depth++ {
+		v = NormCell(v)
+		par, ok := v.(*ssa.Parameter)
+		if !ok {
+			return v
+		}
+		f := par.Parent()
+		site, ok := p.SoleCaller(f)
+		if !ok {
+			return v
+		}
+		idx := -1
+		for i, q := range f.Params {
+			if q == par {
+				idx = i
+			}
+		}
+		args := site.Instr.Common().Args
+		if idx < 0 || len(args) != len(f.Params) {
+			return v
+		}
+		v = args[idx]
+	}
+	return v
+}
+
+// CondsWithin returns the branch outcomes known at ins in every context through
+// which it is reached inside root's extended body: the outcomes of its own
+// function plus, for each chain of private call sites up to root, those at the
+// call sites (only outcomes common to all chains are kept).
+func (p *Prog) CondsWithin(ins ssa.Instruction, root *ssa.Function) []Cond {
+	ctxs := p.Contexts(ins, func(f *ssa.Function) bool { return f == root })
+	if len(ctxs) == 0 {
+		return CondsAt(ins.Block())
+	}
+	out := ctxs[0]
+	for _, cs := range ctxs[1:] {
+		var keep []Cond
+		for _, a := range out {
+			for _, b := range cs {
+				if a.V == b.V && a.Truth == b.Truth {
+					keep = append(keep, a)
+					break
+				}
+			}
+		}
+		out = keep
+	}
+	return out
+}
+
+// NormConds normalises branch outcomes (see normalizeAll).
+func NormConds(cs []Cond) []Cond { return normalizeAll(cs, 0) }
+
+// LoopBlocks returns the natural loop of header hdr: the blocks dominated by
+// hdr from which hdr can be reached again.
+func LoopBlocks(hdr *ssa.BasicBlock) map[*ssa.BasicBlock]bool {
+	in := map[*ssa.BasicBlock]bool{hdr: true}
+	for _, b := range hdr.Parent().Blocks {
+		if b != hdr && hdr.Dominates(b) && blockReaches(b, hdr) {
+			in[b] = true
+		}
+	}
+	return in
+}
+
+// IterationPathsAvoiding enumerates the acyclic paths of one iteration of the
+// loop headed by hdr that never enter block avoid: from hdr to the next visit
+// of hdr. For each it returns the normalised branch outcomes taken along the
+// way. exits counts such paths that leave the loop from a block other than
+// the header (break / return before reaching avoid).
+func IterationPathsAvoiding(hdr, avoid *ssa.BasicBlock) (paths [][]Cond, exits int) {
+	in := LoopBlocks(hdr)
+	onPath := map[*ssa.BasicBlock]bool{}
+	var walk func(b *ssa.BasicBlock, acc []Cond)
+	walk = func(b *ssa.BasicBlock, acc []Cond) {
+		if len(paths) > 64 {
+			return
+		}
+		onPath[b] = true
+		defer func() { onPath[b] = false }()
+		for _, s := range b.Succs {
+			next := acc
+			if own, ok := EdgeOwnCond(b, s); ok {
+				next = append(append([]Cond{}, acc...), normalizeAll([]Cond{own}, 0)...)
+			}
+			switch {
+			case s == avoid:
+				continue
+			case s == hdr:
+				paths = append(paths, next)
+			case !in[s]:
+				if b != hdr {
+					// ignore edges into blocks that only panic
+					if n := len(s.Instrs); n > 0 {
+						if _, isPanic := s.Instrs[n-1].(*ssa.Panic); isPanic {
+							continue
+						}
+					}
+					exits++
+				}
+			case onPath[s]:
+				continue
+			default:
+				walk(s, next)
+			}
+		}
+	}
+	walk(hdr, nil)
+	return
 }
